@@ -5,14 +5,16 @@
      withActiveLock : StartEphemeral(/selfmon/active) -- retried every second while the
                       key exists; f(ctx) runs with a context cancelled when the lock
                       expires or selfmon stops
-     monitor        : go initNodeStatus(ctx); ch := cluster.NodeStatusStream(ctx);
+     monitor        : ch := cluster.NodeStatusStream(ctx); go initNodeStatus(ctx);
                       for msg := range ch { go dealNodeStatusMessage(ctx, msg) }
+                      (order as of /repo commit 26913a3; before it initNodeStatus was started
+                       first and the watch was opened asynchronously; see the old_ model in SelfmonProofs)
      initNodeStatus : ListPodNodes(all); for each node: GetNodeStatus; absent => Alive=false;
                       dealNodeStatusMessage
      dealNodeStatusMessage : Alive => ignore; else SetNode{WorkloadsDown: true}
    store/etcdv3/node.go
-     NodeStatusStream : (in a pool goroutine) Watch(/status:node/ prefix); PUT => Alive=true,
-                        DELETE => Alive=false
+     NodeStatusStream : Watch(/status:node/ prefix) (returns once the watch is established), then
+                        in a pool goroutine: PUT => Alive=true, DELETE => Alive=false
      SetNodeStatus    : ttl<0 => delete; else BindStatus (put with lease / keep-alive of the
                         existing lease when the value is unchanged: no event)
    cluster/calcium/node.go
@@ -158,7 +160,7 @@ Definition step (s : st) (e : event) : st :=
       end
   | EInitList k =>
       match phase s k with
-      | Active se => if se_listed se then s
+      | Active se => if se_listed se || negb (se_watch se) then s    (* init starts after the stream is open *)
                      else set_phase s k (Active (mkSe (se_watch se) true (nodes s) (se_queue se) (se_tasks se)))
       | _ => s
       end
@@ -278,15 +280,11 @@ Fixpoint all_handles (fuel k : nat) (s : st) : st :=
 
 (* everything the free-running watchers do until nothing is enabled: waiting
    watchers try to register (lowest number first: the harness starts at most one
-   waiting watcher), active ones run to completion; held watchers do everything
-   except establishing the watch *)
+   waiting watcher), active ones run to completion; a held watcher takes the lock
+   and then sits in its NodeStatusStream call *)
 Definition settle_watcher (held : list nat) (s : st) (k : nat) : st :=
   let s1 := step s (ERegister k) in
-  if memn k held
-  then let s2 := step s1 (EInitList k) in
-       let s3 := all_init_reads (S (length (nodes s2))) k s2 in
-       all_handles (S (length (nodes s3)) + 4) k s3
-  else settle (settle_bound s1 k + 8) k s1.
+  if memn k held then s1 else settle (settle_bound s1 k + 8) k s1.
 Definition settle_all (held : list nat) (s : st) : st :=
   fold_left (settle_watcher held) (seq 0 (length (ws s))) s.
 
@@ -336,10 +334,12 @@ Definition agree (c : case) : bool := agree_from init [] (slots c).
 
 (* ---- boolean reflection of the property on the observed run ----
    From the script alone: which nodes are absent, which workloads sit on which
-   node, which watchers have been started and not stopped.  Clause 1: a lapse
-   of n while such a watcher exists => every workload on n is seen down after
-   that slot.  Clause 2: a watcher starts, or the lock changes hands by
-   stop/expire, while n is absent => same. *)
+   node, who holds the lock.  A watcher whose NodeStatusStream call the harness
+   holds back is slowed down artificially, so its obligations fall due when it
+   is released.  Clause 1: a lapse of n while a free-running watcher holds the
+   lock => every workload on n is seen down after that slot.  Clause 2: a
+   free-running watcher takes the lock (start, release, hand-over by
+   stop/expire) while n is absent => same. *)
 Record okst := mkOk {
   o_nodes : list node; o_alive : list node; o_wnode : list node;   (* node of each workload *)
   o_free : list nat;      (* started, not stopped, not held *)
@@ -374,23 +374,24 @@ Definition ok_step (o : okst) (sl : slot) : okst :=
                | _ => o_held o end in
   let nw' := match a with AStart | AStartHeld => S (o_nw o) | _ => o_nw o end in
   let absent := filter (fun n => negb (memn n alive')) nodes' in
-  let some_before := negb (is_nil (o_free o ++ o_held o)) in
   let remaining := free' ++ held' in
-  (* does this step make a watcher take the lock? *)
-  let takes := match a, o_active o with
-               | (AStart | AStartHeld), None => true
-               | (AStop k | AExpire k), Some k' => (k =? k') && negb (is_nil remaining)
-               | _, _ => false
-               end in
   let active' := match a, o_active o with
                  | (AStart | AStartHeld), None => Some (o_nw o)
                  | (AStop k | AExpire k), Some k' => if k =? k' then hd_error remaining else Some k'
                  | _, x => x
                  end in
+  (* does this step put a free-running watcher in charge? *)
+  let running o := match o with Some k => negb (memn k held') | None => false end in
+  let takes := match a, o_active o with
+               | AStart, None => true
+               | ARelease k, Some k' => (k =? k') && memn k (o_held o)
+               | (AStop k | AExpire k), Some k' => (k =? k') && running active'
+               | _, _ => false
+               end in
   let b := match a with
            | ALapse n =>
                (* the status disappears while a watcher is active *)
-               if some_before && memn n (o_alive o) then seen_down wnode' (seen sl) n else true
+               if running (o_active o) && memn n (o_alive o) then seen_down wnode' (seen sl) n else true
            | _ =>
                (* a watcher becomes active while the status is absent *)
                if takes then forallb (seen_down wnode' (seen sl)) absent else true
